@@ -527,10 +527,10 @@ class Effects(object):
                                         changed = True
                         for j, srcs in list(cs.stores.items()):
                             if j < len(rs):
-                                for tj in rs[j]:
-                                    for i0 in srcs:
+                                for tj in list(rs[j]):
+                                    for i0 in list(srcs):
                                         if i0 < len(rs):
-                                            for i in rs[i0]:
+                                            for i in list(rs[i0]):
                                                 if i not in s.stores.get(
                                                         tj, ()):
                                                     s.stores.setdefault(
